@@ -1,11 +1,12 @@
 import LokiModel.Sexp
 import LokiModel.C06.Codec
+import LokiModel.C06.Good
 open LokiModel.C06 LokiModel.Expr Sexp
 
 def step : Sexp → Option Sexp
   | list (atom "printF" :: e :: p :: _) => do
       let e ← decE e; let p ← p.toNat?
-      pure (list (atom "ok" :: (printF fcfg e p).map encTok))
+      pure (list (atom "ok" :: list [atom "good", ofBool (Good fcfg e)] :: (printF fcfg e p).map encTok))
   | list [atom "den", e] => do
       let e ← decE e
       pure (list [atom "ok", encS (den e)])
